@@ -6,6 +6,7 @@ import (
 	"fmt"
 	"os"
 	"path/filepath"
+	"sync/atomic"
 	"time"
 
 	"github.com/akrennmair/updog"
@@ -108,7 +109,7 @@ var OpenModes = []string{OpenOnDemand, OpenPreloaded}
 // Counter is a CounterMetric for cache statistics.
 type Counter struct{ N int64 }
 
-func (c *Counter) Inc() { c.N++ }
+func (c *Counter) Inc() { atomic.AddInt64(&c.N, 1) }
 
 // Open opens path with the given mode and an optional cache.
 func Open(path, mode string, cache updog.Cache) (*updog.Index, error) {
